@@ -17,7 +17,102 @@ type C16Replay struct {
 	Pert      string           `json:"perturbation"` // none | permute | duplicate | both
 	ListIdx   map[string][]int `json:"list_index_maps,omitempty"`
 	Decisions []simrt.Decision `json:"seam_decisions"`
-	Clause    string           `json:"clause"`
+	// Decoy, if present, is another call of the same operation on related arguments that is
+	// executed between the reference run and the compared run: the "history" a second client
+	// of the library would create (a wrongly keyed cache shows only then).
+	Decoy *Call `json:"intervening_call,omitempty"`
+	// History: the runs of the same case that were executed (in this order, after the
+	// reference run) before the compared run. State the library keeps between calls makes
+	// a result depend on them; the shrinker removes the ones that do not matter.
+	History []C16Step `json:"earlier_runs,omitempty"`
+	Clause  string    `json:"clause"`
+}
+
+type C16Step struct {
+	Pert      string           `json:"perturbation"`
+	ListIdx   map[string][]int `json:"list_index_maps,omitempty"`
+	Decisions []simrt.Decision `json:"seam_decisions,omitempty"`
+	Decoy     *Call            `json:"intervening_call,omitempty"`
+}
+
+// decoyOf derives a related call: same operation, one argument nudged.
+func decoyOf(r *simrt.Rand, c *Call) *Call {
+	d := c.clone()
+	var opts []func()
+	for i := range d.Ints {
+		i := i
+		opts = append(opts, func() { d.Ints[i] += []int64{-2, -1, 1, 2}[r.Intn(4)] })
+	}
+	for i := range d.Flts {
+		i := i
+		opts = append(opts, func() { d.Flts[i] *= []float64{0, 0.5, 2}[r.Intn(3)] })
+	}
+	for i := range d.Bools {
+		i := i
+		opts = append(opts, func() { d.Bools[i] = !d.Bools[i] })
+	}
+	nudge := func(l []string) {
+		if len(l) == 0 {
+			return
+		}
+		j := r.Intn(len(l))
+		a := parseInts(l[j])
+		if len(a) == 0 {
+			return
+		}
+		k := len(a) - 1 - r.Intn(2)
+		if k < 0 {
+			k = 0
+		}
+		a[k] += []int64{-1, 1}[r.Intn(2)]
+		parts := make([]string, len(a))
+		for x, v := range a {
+			parts[x] = fmt.Sprint(v)
+		}
+		l[j] = joinSlash(parts)
+	}
+	if len(d.IDs) > 0 {
+		opts = append(opts, func() { nudge(d.IDs) }, func() { d.IDs = d.IDs[:len(d.IDs)-1] })
+	}
+	if len(d.IDs2) > 0 {
+		opts = append(opts, func() { nudge(d.IDs2) })
+	}
+	if len(d.Tiles) > 0 {
+		opts = append(opts, func() { j := r.Intn(len(d.Tiles)); d.Tiles[j][r.Intn(5)] += 1 }, func() { d.Tiles = d.Tiles[:len(d.Tiles)-1] })
+	}
+	if len(d.QVs) > 0 {
+		opts = append(opts, func() { j := r.Intn(len(d.QVs)); d.QVs[j].VIndex++ }, func() { j := r.Intn(len(d.QVs)); d.QVs[j].Quadkey ^= 1 })
+	}
+	if len(d.Pts) > 0 {
+		opts = append(opts, func() { j := r.Intn(len(d.Pts)); d.Pts[j][2] += 7.5 }, func() { j := r.Intn(len(d.Pts)); d.Pts[j][0] = clamp(d.Pts[j][0]+0.0003, -179.99, 179.99) })
+	}
+	if len(opts) == 0 {
+		return nil
+	}
+	opts[r.Intn(len(opts))]()
+	return d
+}
+
+func joinSlash(p []string) string {
+	out := ""
+	for i, x := range p {
+		if i > 0 {
+			out += "/"
+		}
+		out += x
+	}
+	return out
+}
+
+// execDecoy runs an intervening call; its result is irrelevant.
+func execDecoy(c *Call) {
+	if c == nil {
+		return
+	}
+	if spec := opByName[c.Op]; spec != nil {
+		// an intervening call only has to touch the library's state: a small step budget
+		execRunBudget(spec, c, simrt.NewAscOrder(), 1_500_000)
+	}
 }
 
 type runOutcome struct {
@@ -26,7 +121,14 @@ type runOutcome struct {
 	argDiff  string
 	order    *simrt.OrderSource
 	duration time.Duration
+	aborted  bool // cut short by the step budget: no verdict from this run
+	steps    int64
 }
+
+// stepBudgetPerRun bounds one library execution outside the scheduler (function entries +
+// loop iterations of instrumented code). Ordinary runs of the generated workloads stay two
+// orders of magnitude below it.
+const stepBudgetPerRun = 25_000_000
 
 func argHashes(a *Args) [6]uint64 {
 	return [6]uint64{simrt.DeepHash(a.IDsBuf), simrt.DeepHash(a.IDs2Buf), simrt.DeepHash(a.Pts), simrt.DeepHash(a.Tiles), simrt.DeepHash(a.QVs), simrt.DeepHash(a.Ext)}
@@ -36,17 +138,23 @@ var argNames = [6]string{"first string list (incl. spare capacity)", "second str
 
 // execRun runs one call under one order source.
 func execRun(spec *OpSpec, call *Call, order *simrt.OrderSource) runOutcome {
+	return execRunBudget(spec, call, order, stepBudgetPerRun)
+}
+
+func execRunBudget(spec *OpSpec, call *Call, order *simrt.OrderSource, budget int64) runOutcome {
 	m := NewMaterializer(false)
 	args := m.Build(call)
 	before := argHashes(args)
 	lens := [2]int{len(args.IDs), len(args.IDs2)}
 	t0 := time.Now()
 	simrt.SetRunOrder(order)
+	simrt.SetStepBudget(budget)
 	simrt.Active = true
 	res := guard(func() Result { return spec.Exec(call, args) })
 	simrt.Active = false
 	simrt.SetRunOrder(nil)
-	out := runOutcome{res: res, order: order, duration: time.Since(t0)}
+	out := runOutcome{res: res, order: order, duration: time.Since(t0), aborted: simrt.Aborted, steps: simrt.Steps}
+	simrt.SetStepBudget(0)
 	after := argHashes(args)
 	for i := range before {
 		if before[i] != after[i] {
@@ -164,7 +272,13 @@ func evalC16(rp *C16Replay) (clauses map[string]string, ref, run runOutcome) {
 		clauses["error"] = "unknown op " + rp.Base.Op
 		return
 	}
+	simrt.RestoreGlobals()
 	ref = execRun(spec, rp.Base, simrt.NewAscOrder())
+	for _, h := range rp.History {
+		execDecoy(h.Decoy)
+		execRun(spec, applyIdx(rp.Base, h.ListIdx), simrt.NewReplayOrder(h.Decisions))
+	}
+	execDecoy(rp.Decoy)
 	pc := applyIdx(rp.Base, rp.ListIdx)
 	run = execRun(spec, pc, simrt.NewReplayOrder(rp.Decisions))
 	checkPair(spec, rp.Pert, &ref, &run, clauses)
@@ -222,10 +336,19 @@ func (w *Worker) runC16Case(idx int64) {
 	weights := swarmWeights(g.R)
 	w.St.Cases++
 	w.St.OpCount[spec.Name]++
+	simrt.RestoreGlobals() // every case starts from the package state of a fresh process
 
 	ref := execRun(spec, base, simrt.NewAscOrder())
 	w.St.Evaluations++
 	w.mergeOrderStats(ref.order)
+	if ref.steps > w.St.Extra["worst_steps_per_run"] {
+		w.St.Extra["worst_steps_per_run"] = ref.steps
+	}
+	if ref.aborted {
+		w.St.Probes["runs_cut_short_by_step_budget"]++
+		w.recordCase(idx, hashCall(base))
+		return
+	}
 	caseHash := hashCall(base) ^ hashStrings(ref.canon...)
 	w.probesC16(spec, base, &ref)
 
@@ -233,19 +356,32 @@ func (w *Worker) runC16Case(idx int64) {
 	ref2 := execRun(spec, base, simrt.NewAscOrder())
 	w.St.Evaluations++
 	w.St.FaultKinds["repeat_call"]++
-	if !sameOutcome(&ref, &ref2) && !w.classSeen("C16", spec.Name, "a-same-schedule-different-set") {
+	if !ref2.aborted && !sameOutcome(&ref, &ref2) && !w.classSeen("C16", spec.Name, "a-same-schedule-different-set") {
 		rp := &C16Replay{Base: base, Pert: "none", Clause: "a-same-schedule-different-set"}
 		w.report(&Violation{Property: "C16", Clause: rp.Clause, Op: spec.Name, Seed: w.Seed, Case: idx,
 			Detail: "two runs with identical arguments and identical (canonical) map orders returned different sets", Replay: mustJSON(rp)})
 	}
 
+	history := []C16Step{{Pert: "none"}} // the same-schedule repeat above
 	for k := 1; k <= w.K; k++ {
 		pert, lidx := drawPerturbation(g.R, spec, base)
+		var decoy *Call
+		if g.R.Chance(1, 3) {
+			if decoy = decoyOf(g.R, base); decoy != nil {
+				execDecoy(decoy)
+				w.St.Evaluations++
+				w.St.FaultKinds["intervening_call_on_related_arguments"]++
+			}
+		}
 		pc := applyIdx(base, lidx)
 		order := simrt.NewGenOrder(simrt.Mix(w.Seed, uint64(idx), uint64(k), 1600), weights)
 		run := execRun(spec, pc, order)
 		w.St.Evaluations++
 		w.mergeOrderStats(order)
+		if run.aborted {
+			w.St.Probes["runs_cut_short_by_step_budget"]++
+			continue
+		}
 		switch pert {
 		case "permute":
 			w.St.FaultKinds["input_permutation"]++
@@ -269,7 +405,7 @@ func (w *Worker) runC16Case(idx int64) {
 				w.report(&Violation{Property: "C16", Op: spec.Name, Clause: cl})
 				continue
 			}
-			rp := &C16Replay{Base: base, Pert: pert, ListIdx: lidx, Decisions: order.Decisions, Clause: cl}
+			rp := &C16Replay{Base: base, Pert: pert, ListIdx: lidx, Decisions: order.Decisions, Clause: cl, Decoy: decoy, History: append([]C16Step{}, history...)}
 			rp, note := shrinkC16(rp)
 			v := &Violation{Property: "C16", Clause: cl, Op: spec.Name, Seed: w.Seed, Case: idx, Detail: clauses[cl],
 				Sites: w.siteNames(rp.Decisions), Replay: mustJSON(rp), Shrunk: note}
@@ -278,6 +414,7 @@ func (w *Worker) runC16Case(idx int64) {
 			}
 			w.report(v)
 		}
+		history = append(history, C16Step{Pert: pert, ListIdx: lidx, Decisions: order.Decisions, Decoy: decoy})
 		if k == 1 && len(w.St.Samples) < 3 && w.W == 0 {
 			w.St.Samples = append(w.St.Samples, map[string]any{"case": idx, "base_call": base, "perturbation": pert, "list_index_maps": lidx,
 				"seam_decisions": head2(order.Decisions, 8), "seam_visits": order.Visits, "result_elements": len(run.canon), "equal_to_reference": sameOutcome(&ref, &run)})
@@ -357,6 +494,33 @@ func shrinkC16(rp *C16Replay) (*C16Replay, string) {
 	}
 	cur := rp
 	steps := 0
+	// 0. history: all earlier runs at once, then one by one; the intervening call
+	if len(cur.History) > 0 {
+		c := *cur
+		c.History = nil
+		if fails(&c) {
+			cur = &c
+			steps++
+		}
+	}
+	for i := 0; i < len(cur.History); {
+		c := *cur
+		c.History = append(append([]C16Step{}, cur.History[:i]...), cur.History[i+1:]...)
+		if fails(&c) {
+			cur = &c
+			steps++
+		} else {
+			i++
+		}
+	}
+	if cur.Decoy != nil {
+		c := *cur
+		c.Decoy = nil
+		if fails(&c) {
+			cur = &c
+			steps++
+		}
+	}
 	// 1. seam decisions: drop halves, then singles
 	for chunk := (len(cur.Decisions) + 1) / 2; chunk >= 1; chunk /= 2 {
 		for i := 0; i+chunk <= len(cur.Decisions); {
@@ -393,6 +557,11 @@ func shrinkC16(rp *C16Replay) (*C16Replay, string) {
 				c := *cur
 				c.Base = dropElem(cur.Base, name, i)
 				c.ListIdx = dropIdx(cur.ListIdx, name, i)
+				c.History = nil
+				for _, h := range cur.History {
+					h.ListIdx = dropIdx(h.ListIdx, name, i)
+					c.History = append(c.History, h)
+				}
 				if fails(&c) {
 					cur = &c
 					steps++
